@@ -23,6 +23,16 @@ Oracles (all observe executions of the real code):
 * lazy default registry: one trigger per fresh child interpreter, then the same probe battery
   through the module-level objects and through an explicit UnitRegistry.
 
+Violation classes seen on the unchanged tree (all triaged as genuine, see the C18 report):
+  cross-registry-silent (opfamily pow: `**` never checks registries; opfamily order with a Unit
+  operand: Unit.compare re-wraps the foreign operand), cross-registry-eq-true (Quantity.__eq__
+  compares/converts across registries), deepcopy-evolution (Group/System objects of the copy keep
+  the source as _REGISTRY: define @group / get_group(new) fail on the copy, members/compatible
+  listings and ureg.sys.X.unit leak between source and copy), exception-roundtrip for the
+  txt_defparser DefinitionSyntaxError (location/position lost, message changes), lazy-differs
+  (module-level pint.Quantity/pint.Unit instances are not instances of the application registry's
+  classes: Q*U, Q/U, wraps, from_tuple fail; dir()/iter() of the unbuilt proxy).
+
 Deviations from DESIGN §4/C18: Measurement equality is (nominal, std_dev, units) — `==` of two
 independent ufloats is False by construction of `uncertainties`; NaN magnitudes are compared by
 fingerprint only.  The lazy registry forces on_redefinition='raise' on purpose (pint/registry.py),
@@ -42,7 +52,7 @@ from fractions import Fraction as F
 
 PID = "C18"
 RULE = ("round trips: random Quantity/Unit/Measurement over every canonical unit of the bundled "
-        "registry plus random (prefixed) spellings in 1-3 factor compounds x 14 magnitude kinds x "
+        "registry plus random (prefixed) spellings in 1-3 factor compounds x 19 magnitude kinds x "
         "{pickle 0-5, copy, deepcopy, tuple} in float/Decimal/Fraction registries, containers and "
         "ParserHelpers, every exception class found by walking the pint package x generated and "
         "really-raised instances; fresh-interpreter unpickling batches with pairwise distinct "
